@@ -188,16 +188,20 @@ func H_C04_typed(v *V) {
 		}
 		want = ErrHelp
 	case 12: // the fault arrives through the environment: not a number
+		// (an environment value cannot hold a NUL byte)
+		v.Assume(refIndexByte(V, 0) < 0)
 		variant = 4
 		v.Assume(!refIsDecimal(V))
 		v.Setenv("C04_NUM", V)
 		fault, want = nil, ErrMarshal
 	case 13: // ... a value outside the declared choices
+		v.Assume(refIndexByte(V, 0) < 0)
 		variant = 4
 		v.Assume(V != "a" && V != "b")
 		v.Setenv("C04_CHO", V)
 		fault, want = nil, ErrInvalidChoice
 	case 14: // ... one element of a delimited list does not convert
+		v.Assume(refIndexByte(V, 0) < 0)
 		variant = 4
 		v.Assume(!refIsDecimal(V) && refIndexByte(V, ',') < 0)
 		v.Setenv("C04_LST", "1,"+V)
